@@ -31,7 +31,7 @@ LEVEL = {
             "array-element assignment (u.arr[0] = x) is not an assignment to a member in the sense of the property and is not driven."),
     "C12": ("EnumSpec.tla: declarative numbering (enum: previous+1, flag: next higher power of two, explicit values = ExprGrammar over earlier members) and the equality rule; MC_Enum proves the parser's numbering loop equal to it for all member lists <= 4 over 10 value forms; random declarations are loaded into the real library and members, the equality matrix (same class, other class incl. enum vs flag, int, alias member) and two-parses equality/hash for member, non-member, min, max values are judged by Trace_Enum; enum/flag scalars, arrays and bit-fields are parsed and dumped through Trace_Codec.",
             "flags over signed base types with negative values are finding F19 (listed)."),
-    "C13": ("TypeTable.tla states the name table (AddType with the re-declaration rule, Resolve with the hop bound, declarative Meaning); MC_TypeTable proves ResolveIsMeaning, NeverBindsElsewhere, SameObject, Redeclare over all histories of <= 4 add_type calls (3 names, 2 types, unknown targets, replace on/off). Abstract declaration lists are rendered with EVERY single insertion point x sampled fillers (space, tab, LF, CRLF, block / multi-line / line comments), random multi-insertions, dependency-respecting orders and splits into several load() calls; after each rendering the real table (every declared name projected back to an abstract type, alias identity, constants) is judged by Trace_Parser against the table obtained by folding the declarations over TypeTable from the built-in names.",
+    "C13": ("TypeTable.tla states the name table (AddType with the re-declaration rule, Resolve with the hop bound, declarative Meaning); MC_TypeTable proves ResolveIsMeaning, NeverBindsElsewhere, SameObject, Redeclare over all histories of <= 4 add_type calls (3 names, 2 types, unknown targets, replace on/off). Abstract declaration lists are rendered with EVERY single insertion point x sampled fillers (space, tab, LF, CRLF, block / multi-line / line comments), random multi-insertions, dependency-respecting orders and splits into several load() calls; after each rendering the real table (every declared name projected back to an abstract type, alias identity, constants) is judged by Trace_Parser against the table obtained by folding the declarations over TypeTable from the built-in names. DefGrammar.tla is the definition language itself as a grammar over the characters of the text (lexer: blanks, comments, #define lines, counts in brackets; parser: typedef / struct / union / enum / flag with declarators, multi-word type names, inline and anonymous members, self references; constant folding of counts and enum numbering through ExprGrammar / EnumSpec): TLC derives the declarations from every rendered text and they must equal the abstract list the rendering started from; 118 definition texts written by people (the string literals of the repository's tests) and filler re-renderings of them are judged by the grammar alone.",
             "the regex scanner itself is exercised as a black box through the renderings; insertion points exclude the inside of [...], the name-[ boundary and #define lines (the property's quantifier); line breaks inside an enum member are finding F12 (listed)."),
     "C14": ("SessionSpec.tla gives instances their meaning (Zero, Init, UpdPath) with nothing else as state; Trace_Session is a stateful trace specification whose state is the set of live instances: after EVERY event (Construct, Parse, failed Parse, SetField at nested paths / array elements / bit-fields, Dump, Eq, Bool, Load / SetEndian / AddType on another cstruct object) the harness logs the projection of ALL live instances of three cstruct objects and TLC checks it equals the specification state - an action changes its target and nothing else; MC_Session proves Independent / FreshIsZero on the specification.",
             "histories are random (14 / 30 events); the frame condition is checked on the instances the harness keeps alive."),
